@@ -35,4 +35,38 @@ HeaderRow(groups, metrics) ==      \* sequences of strings-as-sequences
 Loaded(tok) == IF tok \in MissingTokens THEN "missing" ELSE tok
 
 NoDashIn(m) == ~HasDash(m)
+
+(***************************************************************************)
+(* The on-disk form of a row: cells joined by TAB, a cell that contains a  *)
+(* TAB, a double quote or a line break is enclosed in double quotes with   *)
+(* every inner quote doubled (csv "minimal" quoting), the row ends with LF.*)
+(* Characters are one-character strings; TAB = "\t", LF = "\n".            *)
+(***************************************************************************)
+TAB == "\t"
+LF == "\n"
+CR == "\r"
+DQ == "\""
+NeedsQuote(c) == \E i \in 1..Len(c) : c[i] \in {TAB, LF, CR, DQ}
+RECURSIVE DoubleQuotes(_)
+DoubleQuotes(c) == IF c = <<>> THEN <<>>
+                   ELSE (IF Head(c) = DQ THEN <<DQ, DQ>> ELSE <<Head(c)>>) \o DoubleQuotes(Tail(c))
+QuoteCell(c) == IF NeedsQuote(c) THEN <<DQ>> \o DoubleQuotes(c) \o <<DQ>> ELSE c
+RECURSIVE JoinCells(_)
+JoinCells(cells) == IF Len(cells) = 1 THEN QuoteCell(cells[1]) ELSE QuoteCell(cells[1]) \o <<TAB>> \o JoinCells(Tail(cells))
+RowText(cells) == JoinCells(cells) \o <<LF>>
+
+\* reading one row back: a small scanner (state: inside quotes or not)
+RECURSIVE Scan(_, _, _, _)
+Scan(txt, cur, acc, inq) ==      \* txt without the final LF
+    IF txt = <<>> THEN Append(acc, cur)
+    ELSE LET h == Head(txt)  t == Tail(txt) IN
+         IF inq
+         THEN IF h = DQ
+              THEN IF t # <<>> /\ Head(t) = DQ THEN Scan(Tail(t), Append(cur, DQ), acc, TRUE)
+                   ELSE Scan(t, cur, acc, FALSE)
+              ELSE Scan(t, Append(cur, h), acc, TRUE)
+         ELSE IF h = TAB THEN Scan(t, <<>>, Append(acc, cur), FALSE)
+              ELSE IF h = DQ /\ cur = <<>> THEN Scan(t, cur, acc, TRUE)
+              ELSE Scan(t, Append(cur, h), acc, FALSE)
+ParseRow(txt) == Scan(SubSeq(txt, 1, Len(txt) - 1), <<>>, <<>>, FALSE)
 =============================================================================
